@@ -275,22 +275,29 @@ theorem C08_release_on_completion {cfg : Cfg} {s : St} {inp : List Nat}
   · exact prUnsuback_rel { cfg := cfg, s := { s with pb := pb } } p hm
 
 /-- **release_on_refusal.**  A `send` of a QoS>0 PUBLISH, SUBSCRIBE or UNSUBSCRIBE carrying an
-    in-use id that passes the version and role checks and is answered with a `NotifyError`
-    announces exactly that id.  The refusal reasons covered (all that exist for these packets
-    once the id is in use): v3.1.1/v5.0 PUBLISH not allowed in the current status
+    in-use id that is answered with a `NotifyError` announces exactly that id — whatever the
+    reason of the refusal.  The refusal reasons covered (all that exist for these packets once
+    the id is in use): protocol version mismatch (`VersionMismatch`) and role check
+    (`PacketNotAllowedToSend`) — fix 1d0ef05, see `C08_release_on_version_or_role_refusal`;
+    v3.1.1/v5.0 PUBLISH not allowed in the current status
     (`PacketNotAllowedToSend`); v5.0 PUBLISH / SUBSCRIBE / UNSUBSCRIBE larger than the peer's
     Maximum Packet Size (`PacketTooLarge`); v5.0 PUBLISH over the peer's Receive Maximum
     (`ReceiveMaximumExceeded`); v5.0 PUBLISH with an unusable Topic Alias (empty topic and
     unknown / out-of-range alias, or alias out of range) (`PacketNotAllowedToSend`);
     SUBSCRIBE / UNSUBSCRIBE while not connected. -/
 theorem C08_release_on_refusal {cfg : Cfg} {s : St} (p : Pkt) (id : Nat)
-    (hv : s.ver = p.ver) (hr : roleMaySend cfg.role p = true)
     (hk : (p.kind = .publish ∧ p.qos > 0) ∨ p.kind = .subscribe ∨ p.kind = .unsubscribe)
     (hp : p.pid = some id) (hu : isUsed s id = true)
     (he : errs (step cfg s (.send p)).ev ≠ []) :
     Mon.releasedIds (step cfg s (.send p)).ev = [id] := by
+  have hi : initiatingId p = some id :=
+    initiatingId_of_kind (by rcases hk with ⟨hk, _⟩ | hk | hk <;> simp [hk]) hp
   have key : Refuse { cfg := cfg, s := s } (step cfg s (.send p)) id := by
-    simp only [step, send, hv, ne_eq, not_true_eq_false, if_false, hr, Bool.not_true, Bool.false_eq_true]
+    simp only [step, send]
+    split
+    · exact refuseSend_refuse _ _ p id hi hu
+    split
+    · exact refuseSend_refuse _ _ p id hi hu
     unfold processSend
     rcases hk with ⟨hk, hq⟩ | hk | hk
     · by_cases h4 : p.ver = 4 <;> simp only [h4, if_true, if_false, hk]
@@ -304,24 +311,83 @@ theorem C08_release_on_refusal {cfg : Cfg} {s : St} (p : Pkt) (id : Nat)
   · exact absurd k he
   · simpa [Mon.releasedIds] using k
 
-/-- Refusals that do **not** release (the id stays in use, nothing is announced): version
-    mismatch, role check, and every refusal of a PUBREL (too large, not allowed —
-    finding #23).  (`PacketIdentifierInvalid` cannot release: the id is not in use.) -/
+/-- the error a send refused before its handler reports -/
+def C08.gateErr (s : St) (p : Pkt) : Nat := if s.ver ≠ p.ver then eVersionMismatch else eNotAllowed
+
+/-- **release_on_version_or_role_refusal** (fix 1d0ef05).  A `send` refused because the packet's
+    protocol version is not the connection's, or because the role may never send the kind,
+    with `id` the identifier the packet was given to start an exchange (`initiatingId`: that of
+    a PUBLISH / SUBSCRIBE / UNSUBSCRIBE):
+    * `id` in use: the events are exactly `[NotifyError e, NotifyPacketIdReleased id]`, only
+      the allocator changes, `id` is free afterwards and every other id is as before;
+    * `id` not in use: the events are exactly `[NotifyError e]` and the state (the allocator in
+      particular) is unchanged.
+    Before the fix the identifier stayed in use and nothing was announced. -/
+theorem C08_release_on_version_or_role_refusal {cfg : Cfg} {s : St} (h : 1 ≤ cfg.idMax) (w : PidWf cfg s)
+    (p : Pkt) (id : Nat)
+    (hg : s.ver ≠ p.ver ∨ roleMaySend cfg.role p = false) (hi : initiatingId p = some id) :
+    (isUsed s id = true →
+      (step cfg s (.send p)).ev = [.error (C08.gateErr s p), .released id] ∧
+      (step cfg s (.send p)).s = { s with pidMan := (Alloc.deallocate s.pidMan id).2 } ∧
+      isUsed (step cfg s (.send p)).s id = false ∧
+      ∀ x, x ≠ id → isUsed (step cfg s (.send p)).s x = isUsed s x) ∧
+    (isUsed s id = false →
+      (step cfg s (.send p)).ev = [.error (C08.gateErr s p)] ∧ (step cfg s (.send p)).s = s) := by
+  have hw : Wf { cfg := cfg, s := s } := ⟨h, w⟩
+  have e : step cfg s (.send p) = refuseSend { cfg := cfg, s := s } (C08.gateErr s p) p := by
+    simp only [step, send, C08.gateErr]
+    by_cases hv : s.ver = p.ver
+    · have hr : roleMaySend cfg.role p = false := by
+        rcases hg with hg | hg
+        · exact absurd hv hg
+        · exact hg
+      simp [hv, hr]
+    · simp [hv]
+  rw [e]
+  constructor
+  · intro hu
+    rw [refuseSend_used hw _ p id hi hu]
+    obtain ⟨_, _, d3⟩ := w.w.dealloc hu
+    refine ⟨rfl, rfl, ?_, ?_⟩
+    · cases hc : isUsed ({ s with pidMan := (Alloc.deallocate s.pidMan id).2 } : St) id with
+      | false => rfl
+      | true => exact absurd rfl ((d3 id).1 hc).2
+    · intro x hx
+      cases hc : isUsed s x with
+      | true => exact (d3 x).2 ⟨hc, hx⟩
+      | false =>
+        cases hc' : isUsed ({ s with pidMan := (Alloc.deallocate s.pidMan id).2 } : St) x with
+        | false => rfl
+        | true => have := ((d3 x).1 hc').1; simp only [isUsed] at hc; simp_all
+  · intro hu
+    rw [refuseSend_unused _ _ p id hi hu]
+    exact ⟨rfl, rfl⟩
+
+/-- Refusals that do **not** release (nothing is announced, no id changes): a version or role
+    refusal of a packet that does not start an exchange (`initiatingId p = none`: anything but
+    PUBLISH / SUBSCRIBE / UNSUBSCRIBE with an identifier), and every refusal of a PUBREL
+    (version, role, too large, not allowed — finding #23).  (`PacketIdentifierInvalid` cannot
+    release: the id is not in use.)  Since fix 1d0ef05 a version or role refusal of a packet
+    that does carry such an identifier releases it: `C08_release_on_version_or_role_refusal`. -/
 theorem C08_refusal_without_release {cfg : Cfg} {s : St} (p : Pkt)
-    (hk : s.ver ≠ p.ver ∨ roleMaySend cfg.role p = false ∨ p.kind = .pubrel) :
+    (hk : ((s.ver ≠ p.ver ∨ roleMaySend cfg.role p = false) ∧ initiatingId p = none) ∨ p.kind = .pubrel) :
     Mon.releasedIds (step cfg s (.send p)).ev = [] ∧
       ∀ id, isUsed (step cfg s (.send p)).s id = isUsed s id := by
+  have hi : initiatingId p = none := by
+    rcases hk with hk | hk
+    · exact hk.2
+    · simp [initiatingId, hk]
   have q : Quiet { cfg := cfg, s := s } (step cfg s (.send p)) := by
     simp only [step, send]
-    rcases hk with hk | hk | hk
-    · simp only [hk, ne_eq, not_false_eq_true, if_true]; quiet_tac
-    · split
-      · quiet_tac
-      · simp only [hk, Bool.not_false, if_true]; quiet_tac
-    · split
-      · quiet_tac
-      split
-      · quiet_tac
+    split
+    · rw [refuseSend_none _ _ p hi]; quiet_tac
+    split
+    · rw [refuseSend_none _ _ p hi]; quiet_tac
+    · rename_i hv hr
+      rcases hk with hk | hk
+      · rcases hk.1 with hk' | hk'
+        · exact absurd hk' hv
+        · simp [hk'] at hr
       · unfold processSend
         split <;> simp only [hk] <;> exact psPubrel_q _ _
   exact ⟨by simpa [Mon.releasedIds] using q.2.2, fun id => isUsed_congr q.2.1 id⟩
@@ -515,13 +581,21 @@ theorem witness_restore_fixed :
     let s := (step cfgC s0 (.restorePackets [pq 1 5, pq 2 5, pq 1 0, pq 2 65536])).s
     s.puback = [5] ∧ s.pubrec = [] ∧ s.store.length = 1 ∧ isUsed s 5 = true ∧ PidInv s := by decide
 
-/-- refusals that keep the id silently (cf. `C08_refusal_without_release`): version mismatch;
-    role (`Server` sending SUBSCRIBE); PUBREL while not connected and not persistent
-    (finding #23: afterwards id 1 is in use, owned by nobody, and survives `notify_closed`). -/
+/-- fixed by 1d0ef05 (was part of `witness_silent_refusals`): a version mismatch and a role
+    refusal (`Server` sending SUBSCRIBE) release the identifier like every other refusal -/
+theorem witness_gate_refusals_release :
+    let s1 := (step cfgC s0 .acquire).s
+    isUsed s1 1 = true ∧
+    (step cfgC s1 (.send { sub1 with ver := 4 })).ev = [.error eVersionMismatch, .released 1] ∧
+    isUsed (step cfgC s1 (.send { sub1 with ver := 4 })).s 1 = false ∧
+    (step { cfgC with role := .server } s1 (.send sub1)).ev = [.error eNotAllowed, .released 1] ∧
+    isUsed (step { cfgC with role := .server } s1 (.send sub1)).s 1 = false := by decide
+
+/-- the refusal that still keeps the id silently (cf. `C08_refusal_without_release`): PUBREL
+    while not connected and not persistent (finding #23: afterwards id 1 is in use, owned by
+    nobody, and survives `notify_closed`). -/
 theorem witness_silent_refusals :
     let s1 := (step cfgC s0 .acquire).s
-    (step cfgC s1 (.send { sub1 with ver := 4 })).ev = [.error eVersionMismatch] ∧
-    (step { cfgC with role := .server } s1 (.send sub1)).ev = [.error eNotAllowed] ∧
     (step cfgC s1 (.send pubrel1)).ev = [.error eNotAllowed] ∧
     isUsed (run cfgC s1 [.send pubrel1, .closed]) 1 = true ∧
     waitIds (run cfgC s1 [.send pubrel1, .closed]) = [] := by decide
